@@ -343,6 +343,7 @@ impl Base {
             extra_starts: vec![],
             goal_fail_at: None,
             goal_fail_from: None,
+            prelife: vec![],
             params,
             tag: tag.into(),
         }
